@@ -112,7 +112,11 @@ func rtRouteCell(t *testing.T, rec *Rec, g *Gates, scn string, cell map[string]a
 	quiet := &Rec{start: rec.start}
 	w := NewWorld(t, quiet, g, WorldOpts{Attach: true, AttachO: attachOpts(attach)})
 	path := pathOfShape(shape, segsOfMount(attach))
-	r := w.StartReq("handshake", &Sess{Proto: 4}, ReqOpt{Path: path})
+	method, _ := cell["method"].(string)
+	if method == "" {
+		method = "GET"
+	}
+	r := w.StartReq("handshake", &Sess{Proto: 4}, ReqOpt{Path: path, Method: method})
 	synctest.Wait()
 	engine := r.Status == 200 && len(r.Pkts) > 0 && r.Pkts[0].Type == "open"
 	if r.Status == 400 || r.Status == 403 { // an engine refusal is still the engine
